@@ -468,9 +468,9 @@ package device
 //@   ensures [C07] isBidiCC && outLen != old(outLen) && !bidiSideNeg(canBeNegative, local(value)) && !old(d.ccZeroed[a.CCNeg]) ==> outLen == old(outLen) + 2 && out[old(outLen) + 1] == mkev(0xB0 | chN, a.CCNeg, 0)
 //@   ensures [C07] isBidiCC && outLen != old(outLen) && bidiSideNeg(canBeNegative, local(value)) && old(d.ccZeroed[a.CC]) ==> outLen == old(outLen) + 1
 //@   ensures [C07] isBidiCC && outLen != old(outLen) && !bidiSideNeg(canBeNegative, local(value)) && old(d.ccZeroed[a.CCNeg]) ==> outLen == old(outLen) + 1
-//@   ensures [C07] isBidiCC && a.CC != a.CCNeg && old(zeroedOK(d)) && outLen != old(outLen) ==> (bidiSideNeg(canBeNegative, local(value)) ==> ccv[a.CC] == 0) && (!bidiSideNeg(canBeNegative, local(value)) ==> ccv[a.CCNeg] == 0)
+//@   ensures [C06,C07] isBidiCC && a.CC != a.CCNeg && old(zeroedOK(d)) && outLen != old(outLen) ==> (bidiSideNeg(canBeNegative, local(value)) ==> ccv[a.CC] == 0) && (!bidiSideNeg(canBeNegative, local(value)) ==> ccv[a.CCNeg] == 0)
 //@   ensures [C07] a.MappingType == config.AnalogCC && old(d.ccLearning) && !(local(value) < -0.5 || local(value) > 0.5) ==> outLen == old(outLen) && keys(d.ccZeroed) == old(keys(d.ccZeroed)) && vals(d.ccZeroed) == old(vals(d.ccZeroed))
-//@   ensures [C07] isBidiCC && a.CC != a.CCNeg && bidiCC[a.CC] && bidiCC[a.CCNeg] && a.CC != 123 && a.CCNeg != 123 && old(zeroedOK(d)) ==> zeroedOK(d)
+//@   ensures [C06,C07] isBidiCC && a.CC != a.CCNeg && bidiCC[a.CC] && bidiCC[a.CCNeg] && a.CC != 123 && a.CCNeg != 123 && old(zeroedOK(d)) ==> zeroedOK(d)
 // ---- C06: exact values at the ends and at rest. v = local(value) is the shaped, flipped value the switch sees
 // (the cut facts above pin it to exactly +-1.0 at the physical end stops and 0.0 at rest, for every deadzone in [0,1)).
 //@   let isCC := has(d.config.KeyMappings[d.mapping].Analog[ie.Source.Name], ie.Event.Code) && a.MappingType == config.AnalogCC
